@@ -76,6 +76,18 @@ def observe(sch, text):
     return ("I", core.exc_desc(r[1]))
 
 
+MAIN, INC = "file:///v/c12/main.conf", "file:///v/c12/inc.conf"
+
+
+def observe_mem(sch, files):
+    r = H.load_mem(sch, files, MAIN)
+    if r[0] == "ok":
+        return ("A", H.tree(r[1]))
+    if r[0] == "rejected":
+        return ("R", type(r[1]).__name__)
+    return ("I", core.exc_desc(r[1]))
+
+
 def explore_texts(S, sch, P, plist, depth, acc, mid, d0, tier):
     """BFS over event sequences; reference state = (container state, imports)."""
     A = alphabet(S, plist, tier)
@@ -114,6 +126,23 @@ def explore_texts(S, sch, P, plist, depth, acc, mid, d0, tier):
                                   tags={"kind": "admission", "clause": ref.clause, "ref": ref.verdict,
                                         "with_import": bool(imps)})
                     continue
+                # the same events cut into two resources at every point, tail included from the head and
+                # head included ahead of the tail: imports made on either side of an '%include' boundary
+                # count for the rest of the load, whichever resource holds the rest
+                if imps and uses and len(h2) >= 2:
+                    for k in range(1, len(h2)):
+                        head, tail = H.render_events(h2[:k]), H.render_events(h2[k:])
+                        for lay, files in (("tail-included", {MAIN: head + "%include inc.conf\n", INC: tail}),
+                                           ("head-included", {MAIN: "%include inc.conf\n" + tail, INC: head})):
+                            obs2 = observe_mem(sch, files)
+                            acc.ev()
+                            acc.transitions += 1
+                            acc.cls("include-split impl=%s" % obs2[0])
+                            if obs2 != obs:
+                                acc.violation("include-split-differs", dict(case, files=files, layout=lay),
+                                              [obs2[0], repr(obs2[1])[:200]], [obs[0], repr(obs[1])[:200]],
+                                              tags={"kind": "include-split", "layout": lay, "single": obs[0],
+                                                    "split": obs2[0]})
                 d1 = H.schema_digest(sch)
                 if d1 != d0:
                     diff = [a[:2] for a, b in zip(d0, d1) if a != b]
@@ -136,7 +165,7 @@ def history_texts(S, plist):
     pa, pb, pc, pd = plist[:4]
     impl_a = M.implementers(S, "a")
     c = impl_a[0] if impl_a else "c1"
-    return [
+    texts = [
         [("e", c, None)],
         [("i", pa), ("e", "pa1", None)],
         [("e", "pa1", None)],
@@ -146,6 +175,14 @@ def history_texts(S, plist):
         [("i", pa), ("i", pc)],
         [("i", plist[6]), ("e", c, None)],
     ]
+    # every (import X, use a type of Y): what an EARLIER load imported must not be usable in this one
+    for x in (pa, pb, pc):
+        for y in ("pa1", "pb1", c):
+            t = [("i", x), ("e", y, None)]
+            if t not in texts:
+                texts.append(t)
+    texts.append([("e", "pb1", None)])
+    return texts
 
 
 def uses_imported(texts, hist, step, P):
@@ -156,6 +193,23 @@ def uses_imported(texts, hist, step, P):
             if e[0] == "i" and P.types.get(e[1]):
                 imported |= {t.name for t in P.types[e[1]]}
     return any(e[0] == "e" and e[1] in imported for e in texts[hist[step]])
+
+
+def redefines_earlier_type(texts, hist, step, P):
+    """Does this step's text import a package that defines a type NAME which an earlier load of the history
+    imported from a different package?"""
+    earlier = {}
+    for i in hist[:step]:
+        for e in texts[i]:
+            if e[0] == "i" and P.types.get(e[1]):
+                for t in P.types[e[1]]:
+                    earlier.setdefault(t.name, set()).add(e[1])
+    for e in texts[hist[step]]:
+        if e[0] == "i" and P.types.get(e[1]):
+            for t in P.types[e[1]]:
+                if earlier.get(t.name, set()) - {e[1]}:
+                    return True
+    return False
 
 
 def explore_histories(S, xml, P, plist, hlen, acc, mid):
@@ -188,6 +242,7 @@ def explore_histories(S, xml, P, plist, hlen, acc, mid):
                                   [ref.verdict, ref.clause],
                                   tags={"kind": "history-outcome", "after_import_load": earlier_import,
                                         "uses_type_imported_earlier": uses_imported(texts, hist, step, P),
+                                        "this_load_redefines_that_type": redefines_earlier_type(texts, hist, step, P),
                                         "clause": ref.clause})
                     break
                 d1 = H.schema_digest(sch)
@@ -255,7 +310,9 @@ def run(tier):
              "non-components (package without component.xml, plain module, missing); texts: breadth-first search over "
              "all sequences of '%%import P' (7 names) and '<t/>' (every type name, abstract ones, unknown) up to the "
              "depth bound, reference state = (container state, imports seen); histories: all sequences of <= h loads "
-             "of 8 representative texts against one schema object.  Every load: outcome == reference admission; schema "
+             "of 17 representative texts (every 'import X, use a type of Y' combination over three components) against one "
+             "schema object; every explored text with an import and a use is also cut into two resources at every point "
+             "(tail included from the head / head included ahead of the tail) and must give the same outcome.  Every load: outcome == reference admission; schema "
              "digest unchanged.  Non-trivial = text with >= 1 section use decided by a clause other than unknown-type; "
              "history steps after the first." % (max(f[0] for f in fam), total),
         bounds={"families": fam, "schemas": total},
